@@ -9,7 +9,20 @@ from __future__ import annotations
 
 import ast
 
+from fractions import Fraction
+
 from .model import DEFAULT, MISSING, FunctionInfo, RepoModel, local_names, unparse, walk_no_nested
+
+
+def _isnum(v):
+    return isinstance(v, (int, Fraction)) and not isinstance(v, bool)
+
+
+def _numc(v):
+    """canonical numeric constant term"""
+    if isinstance(v, Fraction) and v.denominator == 1:
+        v = int(v)
+    return ("c", v)
 
 CONJ_FUNCS = {"numpy.conj", "numpy.conjugate"}
 T_FUNCS = {"numpy.transpose"}
@@ -129,9 +142,14 @@ class Normalizer:
         v = node.value
         if isinstance(v, bool) or v is None or isinstance(v, str):
             return ("c", v)
-        if isinstance(v, (int, float)):
-            if isinstance(v, float) and v == int(v) and abs(v) < 1e15:
+        if isinstance(v, int):
+            return ("c", v)
+        if isinstance(v, float):
+            if v == int(v) and abs(v) < 1e15:
                 return ("c", int(v))
+            fr = Fraction(v).limit_denominator(4096)
+            if float(fr) == v:
+                return _numc(fr)
             return ("c", v)
         return ("c", repr(v))
 
@@ -313,9 +331,12 @@ class Normalizer:
         if op == "Mult":
             return self._mul([l, r])
         if op == "Div":
-            if r[0] == "c" and isinstance(r[1], (int, float)) and r[1] not in (0,) and not isinstance(r[1], bool):
-                return self._mul([l, ("c", ("1/", r[1]))])
+            if r[0] == "c" and _isnum(r[1]) and r[1] != 0:
+                return self._mul([l, _numc(Fraction(1) / Fraction(r[1]))])
             return ("/", l, r)
+        if op == "Pow" and l[0] == "c" and r[0] == "c" and _isnum(l[1]) and isinstance(r[1], int) and not isinstance(r[1], bool) and abs(r[1]) <= 64 \
+                and (l[1] != 0 or r[1] > 0):
+            return _numc(Fraction(l[1]) ** r[1])
         sym = {"Pow": "**", "FloorDiv": "//", "Mod": "%", "BitXor": "^", "BitAnd": "&", "BitOr": "|",
                "LShift": "<<", "RShift": ">>"}.get(op, op)
         if sym in ("^", "&", "|"):
@@ -325,7 +346,7 @@ class Normalizer:
     def _neg(self, t):
         if t[0] == "neg":
             return t[1]
-        if t[0] == "c" and isinstance(t[1], (int, float)) and not isinstance(t[1], bool):
+        if t[0] == "c" and isinstance(t[1], (int, float, Fraction)) and not isinstance(t[1], bool):
             return ("c", -t[1])
         if t[0] == "+":
             return ("+", sort_terms([self._neg(x) for x in t[1]]))
@@ -338,12 +359,12 @@ class Normalizer:
                 flat.extend(t[1])
             else:
                 flat.append(t)
-        consts = [t for t in flat if t[0] == "c" and isinstance(t[1], (int, float)) and not isinstance(t[1], bool)]
+        consts = [t for t in flat if t[0] == "c" and isinstance(t[1], (int, float, Fraction)) and not isinstance(t[1], bool)]
         rest = [t for t in flat if t not in consts]
         if consts:
             s = sum(t[1] for t in consts)
             if s != 0 or not rest:
-                rest.append(("c", s))
+                rest.append(_numc(s) if _isnum(s) else ("c", s))
         if len(rest) == 1:
             return rest[0]
         return ("+", sort_terms(rest))
@@ -362,6 +383,17 @@ class Normalizer:
                     flat.append(t[1])
             else:
                 flat.append(t)
+        nums = [t for t in flat if t[0] == "c" and _isnum(t[1])]
+        if nums:
+            rest = [t for t in flat if t not in nums]
+            k = Fraction(1)
+            for t in nums:
+                k *= Fraction(t[1])
+            if k < 0:
+                k, sign = -k, -sign
+            if k == 0:
+                return ("c", 0)
+            flat = rest + ([_numc(k)] if k != 1 or not rest else [])
         out = ("*", sort_terms(flat)) if len(flat) > 1 else flat[0]
         return out if sign == 1 else self._neg(out)
 
